@@ -126,3 +126,20 @@ theorem npoLoop_answer (cfg : NpoCfg) (σ : Nat → Status) (obj : Nat → Rat) 
         exact ⟨h1, by omega, by omega⟩
 
 end FP.Search
+
+namespace FP.Search
+/-- the answer of the loop does not depend on the accumulated trace -/
+theorem stopLoop_solved_acc (σ : Nat → Status) :
+    ∀ (n k : Nat) (acc acc' : List (Nat × Status)),
+      (stopLoop σ n k acc).solved = (stopLoop σ n k acc').solved := by
+  intro n
+  induction n with
+  | zero => intro k acc acc'; simp [stopLoop]
+  | succ n ih =>
+    intro k acc acc'
+    unfold stopLoop
+    split
+    · rfl
+    · exact ih _ _ _
+    · rfl
+end FP.Search
